@@ -245,6 +245,7 @@ func sameKey(a, b ssa.Value) bool {
 
 func runC12(w *World, r *Report) {
 	optionSemantics(w, r, "C12")
+	optionValueAsWritten(w, r, "C12")
 	phaseTables(w, r, "C12")
 	wholeInputRule(w, r, "C12")
 	errorsNotDiscarded(w, r, "C12")
